@@ -19,11 +19,18 @@
 (*        below) - several annotated functions per file, every adjacency    *)
 (*  tree: 2..MaxFiles files at directory depth 0..3, source / test /        *)
 (*        non-Go file, package clause equal to or different from the dir    *)
+(*  size: one file with two annotated functions and one very long source    *)
+(*        line of n \in Sizes bytes (a string literal in a var declaration, *)
+(*        a // comment, a /* */ comment holding the annotation text - the    *)
+(*        two comment forms on top of the doc comment of a third annotated   *)
+(*        function) before, between or after them.  Only the length is part  *)
+(*        of the abstract tree: <<t, sym, n>> / wide |-> n.                  *)
 (* Design mutants (constant Bug) re-create realistic wrong designs; TLC     *)
 (* must reject each of them.                                                *)
 (***************************************************************************)
 EXTENDS Integers, Sequences, FiniteSets, TLC, Json, CSV, IOUtils
 CONSTANTS DocLen, MaxDecls, MaxFiles,
+          Sizes,       \* lengths of the very long source lines of the size family
           NRuns,       \* builds of the same tree
           Bug,         \* "" or the name of a design mutant
           Emit
@@ -48,7 +55,7 @@ Lines(q, fi, di, w) == [j \in 1..Len(q) |-> <<q[j], IF q[j] = "B" THEN "" ELSE S
 MkDecl(fi, di, kind, doc, body, tl, ta) ==
   [kind |-> kind, name |-> "Fn" \o ToString(fi) \o "x" \o ToString(di),
    doc |-> Lines(doc, fi, di, "d"), body |-> Lines(body, fi, di, "b"),
-   tl |-> Lines(tl, fi, di, "l"), ta |-> Lines(ta, fi, di, "a")]
+   tl |-> Lines(tl, fi, di, "l"), ta |-> Lines(ta, fi, di, "a"), wide |-> 0]
 MkFile(fi, dir, ext, pkg, hdr, decls) ==
   [dir |-> dir, name |-> "f" \o ToString(fi), ext |-> ext, pkg |-> pkg, hdr |-> Lines(hdr, fi, 0, "h"), decls |-> decls]
 InDomain(fs) == \A i \in 1..Len(fs) : P!FileInDomain(fs[i])
@@ -74,7 +81,16 @@ FamTree(m) ==
   (IF m >= 2 THEN { <<a, b>> : a \in TFiles(1), b \in TFiles(2) } ELSE {}) \cup
   (IF m >= 3 THEN { <<a, b, c>> : a \in TFiles(1), b \in TFiles(2), c \in TFiles(3) } ELSE {})
 
-Trees(dl, md, mf) == {t \in FamDecl(dl) \cup FamFile(md) \cup FamTree(mf) : InDomain(t)}
+Insert(q, at, x) == SubSeq(q, 1, at - 1) \o <<x>> \o SubSeq(q, at, Len(q))
+Big(form, n) ==
+  CASE form = "raw"   -> [F1(1, 9, <<>>) EXCEPT !.kind = "var", !.wide = n]
+    [] form = "line"  -> [F1(1, 9, <<>>) EXCEPT !.doc = << <<"T", "", n>>, <<"R", Sym(1, 9, "d", 2)>> >>]
+    [] form = "block" -> [F1(1, 9, <<>>) EXCEPT !.doc = << <<"K", Sym(1, 9, "d", 1), n>>, <<"R", Sym(1, 9, "d", 2)>> >>]
+FamSize(ns) ==
+  { << MkFile(1, <<"a">>, ".go", "a", <<>>, Insert(<<F1(1, 1, <<"R">>), F1(1, 2, <<"R", "R">>)>>, at, Big(form, n))) >>
+      : at \in 1..3, form \in {"raw", "line", "block"}, n \in ns }
+
+Trees(dl, md, mf) == {t \in FamDecl(dl) \cup FamFile(md) \cup FamTree(mf) \cup FamSize(Sizes) : InDomain(t)}
 
 --------------------------------------------------------------------------
 (* the design: FindRedirects *)
